@@ -435,7 +435,7 @@ def get_header_lines(header):
 
 first_line_re = re.compile(
     rb"(?P<method>[!#$%&'*+\-.^_`|~0-9A-Za-z]+) "
-    rb"(?P<uri>(?:[^ :?#]+://[^ ?#/]*(?:[0-9]{1,5})?)?[^ ]+)"
+    rb"(?P<uri>(?:[^\x00- \x7f-\xff:?#]+://[^\x00- \x7f-\xff?#/]*(?:[0-9]{1,5})?)?[^\x00- \x7f-\xff]+)"
     rb"(?: HTTP/(?P<version>[0-9]\.[0-9]))?"
 )
 
